@@ -6,7 +6,7 @@ set -u
 SRC=$1; PID=$2; V=$3; TIER=${4:-quick}; shift 4 2>/dev/null || shift 3
 EXTRA="$@"
 WT=/tmp/wt_mut
-DST=/verif/seeded/$PID-$V
+DST=/verif/seeded/$PID-${NAME:-$V}
 [ -d $WT ] || git -C /repo worktree add -q --detach $WT main
 git -C $WT checkout -q -- . ; git -C $WT checkout -q --detach main
 mkdir -p $DST
@@ -31,4 +31,4 @@ cat > $DST/meta.json <<EOF
  "checks_run": "$RES", "tier": "$TIER",
  "ran": "git apply patch.diff in scratch worktree /tmp/wt_mut (at /repo main); pytest (BASELINE cmd); demo.py; PEDAL_REPO=/tmp/wt_mut run.py <id> --tier $TIER; reverted"}
 EOF
-echo "RESULT $PID-$V:$RES"
+echo "RESULT $PID-${NAME:-$V}:$RES"
